@@ -91,12 +91,24 @@ type World struct {
 	// WarmDuringBuild makes Build read the corpus's sorted permanode enumerations after every delivery
 	// (as a server answering queries while blobs arrive would), so that caches exist to go stale.
 	WarmDuringBuild bool
-	Perms           []*Perm
-	Files           []*File
-	Dirs            []*Dir
+	// ForeignEvery > 0: every ForeignEvery-th signed blob (permanodes and claims) is written as a foreign
+	// serializer would, with whitespace in front of "camliVersion" (vsign.SignStyled), cycling the styles.
+	ForeignEvery int
+	nSigned      int
+	Perms        []*Perm
+	Files        []*File
+	Dirs         []*Dir
 }
 
 func New() *World { return &World{Blobs: map[string]*Blob{}} }
+
+func (w *World) nextStyle() int {
+	w.nSigned++
+	if w.ForeignEvery <= 0 || w.nSigned%w.ForeignEvery != 0 {
+		return 0
+	}
+	return 1 + (w.nSigned/w.ForeignEvery)%(vsign.NumLeadStyles-1)
+}
 
 func (w *World) add(contents, typ string) (*Blob, bool) {
 	ref := blob.RefFromString(contents)
@@ -200,7 +212,7 @@ func (w *World) AddDir(name string, children []blob.Ref) *Dir {
 
 // AddPermanode adds a planned permanode signed by the test identity.
 func (w *World) AddPermanode(key string) *Perm {
-	tb := vsign.Test().MustSign(schema.NewPlannedPermanode(key), SigTime)
+	tb := vsign.Test().SignStyled(schema.NewPlannedPermanode(key), SigTime, w.nextStyle())
 	b, fresh := w.add(tb.Contents, "permanode")
 	if !fresh {
 		return b.Perm
@@ -231,7 +243,7 @@ func (w *World) AddClaim(p *Perm, date time.Time, kind, attr, value string) *Cla
 		panic("vsearchworld: claim kind " + kind)
 	}
 	bb.SetClaimDate(date)
-	tb := vsign.Test().MustSign(bb, SigTime)
+	tb := vsign.Test().SignStyled(bb, SigTime, w.nextStyle())
 	b, fresh := w.add(tb.Contents, "claim")
 	if !fresh {
 		panic("vsearchworld: duplicate claim blob")
